@@ -882,7 +882,7 @@ def run(cfg, ops=None, rng=None, extra=None, pre_gen=None, handle=None):
             last = step == length - 1
             if cfg.get("mixed"):
                 # no reference prediction across the two mixins: the invariant alone decides, then the model follows
-                post = world.snapshot()
+                post = observe_links(world, prop, step, op)
                 h.update(repr(post).encode())
                 res.states.add(stable_hash(post))
                 res.bump("mixed_family_ops")
@@ -907,7 +907,7 @@ def run(cfg, ops=None, rng=None, extra=None, pre_gen=None, handle=None):
             # the snapshot reads .parent/.children of every node and never walks the
             # structure, so it is safe even on a corrupt forest; the structure-comparing
             # oracles (C02, C03, C16) therefore judge before the consistency guard
-            post = world.snapshot()
+            post = observe_links(world, prop, step, op)
             h.update(repr(post).encode())
             res.states.add(stable_hash(post))
             for _, x in (a[:2] for a in world.acted):
@@ -984,6 +984,16 @@ def act_safe(model, op, act, exp):
             first = [i for i, ev in enumerate(exp.trace) if ev[0] in PARENT_HOOKS and ev[1] == y]
             return bool(first) and k < first[0]
     return False
+
+
+def observe_links(world, prop, step, op):
+    """(parent, children) of every node through the public API.  Reading `.parent` and `.children` never raises
+    on any forest, consistent or not: an exception here is the library's (C01's business; a guard trip elsewhere)."""
+    try:
+        return world.snapshot()
+    except Exception as exc:  # noqa: BLE001
+        raise Violation(prop if prop in ("C01", "C02", "C20") else "GUARD", "observation", step, "observation:raises:" + type(exc).__name__,
+                        "after step %d %s: reading parent/children of the nodes raised %s: %s" % (step, op, type(exc).__name__, str(exc)[:200]))
 
 
 def stable_hash(obj):
